@@ -130,6 +130,11 @@ type GenSpec struct {
 	From int    `json:"from"`
 	To   int    `json:"to"`
 	Mode string `json:"mode"`
+	// Emit (Mode "emit"): for a value of type From the generator returns this
+	// very converter (any shape: several inputs / outputs, names), under a
+	// generated id. Not covered by the derivability model (GeneratedConvs);
+	// only checks that do not use the model generate it.
+	Emit *FuncSpec `json:"emit,omitempty"`
 }
 
 // Malformed is a malformed option injected at a position of the option list
